@@ -247,11 +247,11 @@ type outcome struct {
 
 // An operation that never returns (e.g. a lock leaked by an earlier refusal) is a violation, not a reason to hang the
 // explorer. The allowance is deliberately far above any legitimate cost, and scales with the work the call has to do:
-// 3 minutes plus, per traversal round of a forward jump, 50 ms in real-hash mode (a round costs about 4 ms) or 200 us in
+// 60 seconds plus, per traversal round of a forward jump, 50 ms in real-hash mode (a round costs about 4 ms) or 200 us in
 // symbolic mode (about 2 us),
 // so that a loaded machine cannot turn a slow legitimate call into an alarm.
 func opAllowance(k *xmss.XMSS, op Op) time.Duration {
-	d := 3 * time.Minute
+	d := 60 * time.Second // a Sign or a one-step SetIndex costs milliseconds
 	if op.Kind == "setindex" {
 		n := uint64(1) << k.GetHeight()
 		if cur := uint64(k.GetIndex()); uint64(op.J) > cur && uint64(op.J) < n { // targets >= 2^h are refused at once
